@@ -36,6 +36,37 @@ pub enum Target {
     TagEn,
     /// a map visitor that reads entries until it has met the key `x` and returns then
     UntilX,
+    /// a map visitor that keeps asking for entries after it has been told there are none (serde does not
+    /// forbid it; a fused access answers `None` again)
+    GreedyMap,
+}
+
+/// Entries of a mapping, collected by a visitor that asks again after `None` (three more times).
+#[derive(Debug, PartialEq)]
+pub struct GreedyMap(pub Vec<(String, Tree)>);
+impl<'de> Deserialize<'de> for GreedyMap {
+    fn deserialize<D: serde::Deserializer<'de>>(d: D) -> Result<Self, D::Error> {
+        struct V;
+        impl<'de> serde::de::Visitor<'de> for V {
+            type Value = GreedyMap;
+            fn expecting(&self, f: &mut std::fmt::Formatter) -> std::fmt::Result {
+                f.write_str("a mapping")
+            }
+            fn visit_map<A: serde::de::MapAccess<'de>>(self, mut a: A) -> Result<GreedyMap, A::Error> {
+                let mut v = Vec::new();
+                while let Some(e) = a.next_entry::<String, Tree>()? {
+                    v.push(e);
+                }
+                for _ in 0..3 {
+                    while let Ok(Some(e)) = a.next_entry::<String, Tree>() {
+                        v.push(e);
+                    }
+                }
+                Ok(GreedyMap(v))
+            }
+        }
+        d.deserialize_map(V)
+    }
 }
 
 /// The value of key `x`; the visitor returns as soon as it has read it (entries behind it stay unread).
@@ -127,7 +158,8 @@ impl<'de> Deserialize<'de> for RcS {
 
 pub type RcMapT = BTreeMap<String, RcS>;
 
-pub const ALL_TARGETS: [Target; 21] = [
+pub const ALL_TARGETS: [Target; 22] = [
+    Target::GreedyMap,
     Target::UntilX,
     Target::FirstEntry,
     Target::LenientRoot,
@@ -234,6 +266,7 @@ macro_rules! with_target {
             $crate::types::Target::LenientRoot => $f::<$crate::types::LenientRoot>($($args),*),
             $crate::types::Target::TagEn => $f::<$crate::types::TagEn>($($args),*),
             $crate::types::Target::UntilX => $f::<$crate::types::UntilX>($($args),*),
+            $crate::types::Target::GreedyMap => $f::<$crate::types::GreedyMap>($($args),*),
         }
     };
 }
